@@ -52,7 +52,7 @@ def confirm(C, site, name, attrs=''):
     return True, 'ok', schema, query
 
 
-SITE_OF = {'render': 'response', 'variable_field': 'variable', 'input_member_struct': 'input', 'input_member_oneof': 'oneof'}
+SITE_OF = {'field_name': 'response', 'render': 'response', 'variable_field': 'variable', 'input_member_struct': 'input', 'input_member_oneof': 'oneof'}
 
 
 def main():
@@ -64,6 +64,7 @@ def main():
     maxq = 1 if tier == 'quick' else 2
     cands = []
     cands += K.k_keyword_replace(R)
+    cands += K.k_field_name(R)
     cands += K.k_render_field(R, maxq, {'C11'})
     cands += K.k_variable_field(R, 0 if tier == 'quick' else 1)
     cands += K.k_input_member(R, 'struct', 0 if tier == 'quick' else 1)
@@ -81,14 +82,14 @@ def main():
             sites = ['response', 'variable', 'input']
             names = [name] if NAME_RE.match(name or '') else []
         else:
-            sites = [SITE_OF[kernel]] + (['alias'] if kernel == 'render' else [])
+            sites = [SITE_OF[kernel]] + (['alias'] if kernel in ('render', 'field_name') else [])
             names = []
             for c in cs[:4]:
                 n = c['model'].get('graphql_name') or c['model'].get('name')
                 if n and NAME_RE.match(n) and n not in names:
                     names.append(n)
         # the case conversions are abstract in the model: also try the reference keywords and their spellings
-        extra = ['type', 'snake_case', 'Self', 'PascalCase', 'externalID', 'SCREAMING', 'self', 'Type', 'crate', 'async', 'final', 'try', 'union', 'fn', 'camelCase', '_lead', 'a1']
+        extra = ['type', 'snake_case', 'Self', 'PascalCase', '_type', 'externalID', 'SCREAMING', 'self', 'Type', 'crate', 'async', 'final', 'try', 'union', 'fn', 'camelCase', '_lead', 'a1']
         tried = 0
         hit = False
         for site in sites:
